@@ -47,7 +47,7 @@ type vfC11Cfg struct {
 
 var vfInjections = []string{"none", "same-address-other-conv-sn5", "same-address-other-conv-sn0", "foreign-address-same-conv-replay", "foreign-address-parity", "foreign-address-short-data",
 	"client-from-foreign-address", "same-address-other-conv-ack", "client-from-foreign-address-same-port", "client-from-peer-address-other-conv",
-	"same-address-mixed-conv-datagram", "client-from-peer-address-mixed-conv-datagram"}
+	"same-address-mixed-conv-datagram", "client-from-peer-address-mixed-conv-datagram", "client-from-peer-host-other-port", "client-from-peer-address-other-zone"}
 
 func vfC11Run(cf vfC11Cfg) explore.RunFunc {
 	return func(e *explore.Exec) explore.Verdict {
@@ -319,6 +319,14 @@ func vfC11Run(cf vfC11Cfg) explore.RunFunc {
 							st := vfUDP(99, 9000)
 							p0.sock.inject(st, frame(wire.EncodeSegment(wire.Seg{Conv: p0.conv, Cmd: wire.CmdAck, Wnd: 0, Sn: 0, Una: 1 << 20}, -1)))
 							p0.sock.inject(st, frame(wire.EncodeSegment(wire.Seg{Conv: p0.conv, Cmd: wire.CmdPush, Wnd: 32, Sn: 0, Data: forged}, -1)))
+						case "client-from-peer-host-other-port", "client-from-peer-address-other-zone":
+							// the peer's host but another port (another process there), or the peer's address in another IPv6 zone
+							st := &net.UDPAddr{IP: net.IPv4(10, 0, 0, 1), Port: 9001}
+							if inj == "client-from-peer-address-other-zone" {
+								st = &net.UDPAddr{IP: net.IPv4(10, 0, 0, 1), Port: 9000, Zone: "eth1"}
+							}
+							p0.sock.inject(st, frame(wire.EncodeSegment(wire.Seg{Conv: p0.conv, Cmd: wire.CmdAck, Wnd: 0, Sn: 0, Una: 1 << 20}, -1)))
+							p0.sock.inject(st, frame(wire.EncodeSegment(wire.Seg{Conv: p0.conv, Cmd: wire.CmdPush, Wnd: 32, Sn: 0, Data: forged}, -1)))
 						case "client-from-peer-address-other-conv":
 							// from the right address but belonging to another conversation (e.g. a stale one): the core must reject it
 							p0.sock.inject(laddr, frame(wire.EncodeSegment(wire.Seg{Conv: p0.conv + 100, Cmd: wire.CmdAck, Wnd: 0, Sn: 0, Una: 1 << 20}, -1)))
@@ -422,7 +430,7 @@ func vfBlocked(out *vrt.Outcome) []string {
 
 func vfC11(c *hx.Ctx) {
 	c.Rule("listener + 2-3 dialled clients with distinct addresses, conversations and payload alphabets; every fate vector {deliver, drop, delay, duplicate} over the first K datagrams; one injected datagram from " +
-		"{same address/other conversation with sn=5, sn=0, ACK; foreign address replaying the conversation id; parity / short data without readable conversation; stranger writing to the dialled client} at one of three instants; " +
+		"{same address/other conversation with sn=5, sn=0, ACK; foreign address replaying the conversation id; parity / short data without readable conversation; stranger (other host; the peer's host from another port; the peer's address in another zone) writing to the dialled client} at one of three instants; " +
 		"accept backlog default or 1; UDP and non-UDP address types; cipher/FEC classes; plus every single scheduling deviation on a subset. Non-trivial = a fault, an injection or a deviation.")
 	c.ByUnit = true
 	K := hx.Pick(c, 3, 4)
